@@ -1393,6 +1393,15 @@ func ruleConversionAlwaysExplicit(c *core.Ctx) {
 				break
 			}
 		}
+		// second engine: the case evaluated path by path over the finite domain (helpers, closures handed along with the
+		// operand, text assembled by concatenation); where it can decide, its answer is taken
+		if decided, wrapped, witness := conversionWrapped(c, p.TypesInfo, d); decided {
+			c.Tables["X7_engine/"+em.name] = "finite-domain evaluation"
+			c.Check(wrapped, rule, key, inCase[0].Pos, "every path of the case prints `<conversion>(` operand `)`",
+				"on some path of the TypeConversionExpression case the operand is not wrapped in a conversion ("+witness+"): `e as T` is printed as `e` and the target language's implicit conversions decide the arithmetic")
+			continue
+		}
+		c.Tables["X7_engine/"+em.name] = "row extraction"
 		if conv == nil {
 			c.Bad(rule, key, inCase[0].Pos, "the TypeConversionExpression case emits no conversion wrapper: `e as T` is printed as `e`")
 			continue
